@@ -3,6 +3,7 @@
 //!        hv replay <ID> <replay.json>
 mod alloc;
 mod drv;
+mod logsink;
 mod gen;
 mod props;
 mod refm;
@@ -37,6 +38,12 @@ fn main() {
     if args.len() < 4 {
         eprintln!("usage: hv run <ID> <tier> <out.json> | hv replay <ID> <file>");
         std::process::exit(2);
+    }
+    // the library logs through `tracing`; the arguments of a log call are only evaluated when a subscriber wants the
+    // event, so a panic or an endless loop inside a log argument is invisible without one: install a subscriber that wants
+    // everything, formats every field and throws the text away
+    if std::env::var("HV_NOLOG").is_err() {
+        let _ = tracing::subscriber::set_global_default(logsink::Sink);
     }
     let threads = std::env::var("HV_THREADS").ok().and_then(|s| s.parse().ok()).unwrap_or(16usize);
     rayon::ThreadPoolBuilder::new().num_threads(threads).stack_size(64 << 20).build_global().ok();
